@@ -290,8 +290,72 @@ func addStringIntrinsics(t map[string]Intrinsic) {
 		}
 		return m.smtSplit(fr, m.strTerm(a[0]), sep)
 	})
+	// strings.SplitN(s, sep, 2) / strings.Cut(s, sep): fork on whether sep occurs; if it does, s = before ++ sep ++ after
+	// with no sep in before ++ (sep without its last byte) -- for a one-byte sep simply: no sep in before.
+	cut2 := func(m *Machine, fr *Frame, s *Term, sep string) (before, after *Term, found bool) {
+		tf := m.tf
+		sepT := tf.StrLit(sep)
+		if len(sep) != 1 {
+			m.unsupported("SplitN/Cut with a separator of %d bytes on a symbolic string", len(sep))
+		}
+		ck := fmt.Sprintf("cut|%d|%s", s.id, sep)
+		if parts, ok := m.splitCache[ck]; ok {
+			if len(parts) == 2 {
+				return parts[0], parts[1], true
+			}
+			return s, nil, false
+		}
+		if m.Decide(fr, tf.App(0, "str.contains", s, sepT)) {
+			b, a := m.freshStr("cutB"), m.freshStr("cutA")
+			m.addPC(tf.Not(tf.App(0, "str.contains", b, sepT)))
+			m.Assume(fr, tf.App(0, "=", s, tf.App(WString, "str.++", b, sepT, a)))
+			m.splitCache[ck] = []*Term{b, a}
+			return b, a, true
+		}
+		m.splitCache[ck] = []*Term{s}
+		return s, nil, false
+	}
+	t["strings.SplitN"] = smtOnly(func(m *Machine, fr *Frame, fn *ssa.Function, a []Value) Value {
+		sep, ok := a[1].(string)
+		n, isC := a[2].(*Term)
+		if !ok || !isC || !n.IsConst() || n.Val != 2 {
+			m.unsupported("strings.SplitN on a symbolic string other than (s, literal, 2)")
+		}
+		m.noteStub("strings.SplitN(s, sep, 2) summarised: fork on whether sep occurs, first occurrence")
+		b, af, found := cut2(m, fr, m.strTerm(a[0]), sep)
+		if !found {
+			return []Value{m.mkSmt(b)}
+		}
+		return []Value{m.mkSmt(b), m.mkSmt(af)}
+	})
+	t["strings.Cut"] = smtOnly(func(m *Machine, fr *Frame, fn *ssa.Function, a []Value) Value {
+		sep, ok := a[1].(string)
+		if !ok {
+			m.unsupported("strings.Cut with a symbolic separator")
+		}
+		m.noteStub("strings.Cut summarised: fork on whether sep occurs, first occurrence")
+		b, af, found := cut2(m, fr, m.strTerm(a[0]), sep)
+		if !found {
+			return TupleV{m.mkSmt(b), "", m.tf.False}
+		}
+		return TupleV{m.mkSmt(b), m.mkSmt(af), m.tf.True}
+	})
 	t["strings.HasPrefix"] = smtOnly(func(m *Machine, fr *Frame, fn *ssa.Function, a []Value) Value {
 		return m.tf.App(0, "str.prefixof", m.strTerm(a[1]), m.strTerm(a[0]))
+	})
+	t["strings.TrimPrefix"] = smtOnly(func(m *Machine, fr *Frame, fn *ssa.Function, a []Value) Value {
+		tf := m.tf
+		s, p := m.strTerm(a[0]), m.strTerm(a[1])
+		plen := tf.App(WInt, "str.len", p)
+		rest := tf.App(WString, "str.substr", s, plen, tf.App(WInt, "-", tf.App(WInt, "str.len", s), plen))
+		return m.mkSmt(tf.App(WString, "ite", tf.App(0, "str.prefixof", p, s), rest, s))
+	})
+	t["strings.TrimSuffix"] = smtOnly(func(m *Machine, fr *Frame, fn *ssa.Function, a []Value) Value {
+		tf := m.tf
+		s, p := m.strTerm(a[0]), m.strTerm(a[1])
+		keep := tf.App(WInt, "-", tf.App(WInt, "str.len", s), tf.App(WInt, "str.len", p))
+		rest := tf.App(WString, "str.substr", s, tf.Const(WInt, 0), keep)
+		return m.mkSmt(tf.App(WString, "ite", tf.App(0, "str.suffixof", p, s), rest, s))
 	})
 	t["strings.HasSuffix"] = smtOnly(func(m *Machine, fr *Frame, fn *ssa.Function, a []Value) Value {
 		return m.tf.App(0, "str.suffixof", m.strTerm(a[1]), m.strTerm(a[0]))
